@@ -498,15 +498,15 @@ func runDDLIdemp(c *core.Ctx) {
 	}
 	// DDL errors abort
 	okErr := false
-	for _, ci := range calls(mig) {
-		if call, ok := ci.(*ssa.Call); ok && strings.HasSuffix(an.CalleeName(&call.Call), "sql.DB).ExecContext") && call.Referrers() != nil {
+	an.Region(mig, nil, func(o an.Occ) {
+		if call, ok := o.In.(*ssa.Call); ok && strings.HasSuffix(an.CalleeName(&call.Call), "sql.DB).ExecContext") && call.Referrers() != nil {
 			for _, r := range *call.Referrers() {
 				if e, ok := r.(*ssa.Extract); ok && e.Index == 1 && e.Referrers() != nil && len(*e.Referrers()) > 0 {
 					okErr = true
 				}
 			}
 		}
-	}
+	})
 	c.Check(okErr, nil, fname(c, mig), "ddl/error", P.Pos(mig.Pos()), "a failing schema statement is reported", "errors of schema statements are ignored")
 }
 
